@@ -243,6 +243,43 @@ func runC16(r *Run) {
 		r.R.Check(forcedOK && forced == 2 && unforced == 1, P+".force.sites", "constant-argument call-site table: processAvailable(true) only at start-up and on the batch-timeout ticker; the monitor ticker passes false", core.FuncName(f), r.where(f),
 			"a forced cut on every monitor tick produces batches smaller than the maximum without a timeout", "2 forced sites (start-up, timeout), 1 unforced (monitor)", fmt.Sprintf("forced=%d unforced=%d placement ok=%v", forced, unforced, forcedOK))
 	}
+	// every tick looks at the queue: from the entry of a ticker's select case the way back to the select passes the
+	// processAvailable call (a tick skipped on the strength of a cached "nothing pending" loses an operation that was
+	// added after the cache was written)
+	if f := r.fn(P, pkgBatch, "Writer.main"); f != nil {
+		ff := r.E.Facts(f, core.Ctx{})
+		n, skip := 0, 0
+		for _, c := range r.callsIn(f, "Writer.processAvailable") {
+			head := enclosingLoopHead(f, c.Block())
+			if head == nil {
+				continue
+			}
+			// the case entry: the true successor of the test `select index == k` that dominates the call
+			var entry *ssa.BasicBlock
+			for d := c.Block(); d != nil && entry == nil; d = d.Idom() {
+				for _, p := range d.Preds {
+					if iff, ok := p.Instrs[len(p.Instrs)-1].(*ssa.If); ok && p.Succs[0] == d {
+						if bo, ok := iff.Cond.(*ssa.BinOp); ok && bo.Op == token.EQL {
+							if ex, ok := bo.X.(*ssa.Extract); ok && ex.Index == 0 {
+								if _, isSel := ex.Tuple.(*ssa.Select); isSel {
+									entry = d
+								}
+							}
+						}
+					}
+				}
+			}
+			if entry == nil {
+				continue
+			}
+			n++
+			if entry != c.Block() && ff.WalkFeasible([]*ssa.BasicBlock{entry}, func(a, b *ssa.BasicBlock) bool { return b == c.Block() }, func(b *ssa.BasicBlock) bool { return b == head }) {
+				skip++
+			}
+		}
+		r.R.Check(n >= 2 && skip == 0, P+".tick.unconditional", "E8 must-pass-through: in the writer's select loop every ticker case reaches its processAvailable call on all ways back to the select", core.FuncName(f), r.where(f),
+			"a tick that is skipped because a cached counter says the queue is empty never sees an operation added after the counter was written: the operation stays queued until some later Add", fmt.Sprintf("%d ticker case(s), none can skip", n), fmt.Sprintf("%d ticker case(s) found (need 2), %d can return to the select without calling processAvailable", n, skip))
+	}
 	if f := r.fn(P, pkgBatch, "Writer.processAvailable"); f != nil {
 		ff := r.E.Facts(f, core.Ctx{})
 		ok := false
